@@ -138,6 +138,14 @@ def build_world(spec: Dict[str, Any], rng: np.random.Generator):
             mem[0].envelope.state = jnp.array(arr)
         else:
             ps_of(mem[0]).state = jnp.array(arr)
+    # Reachable internal variant: an envelope that was combined, absorbed into a composite product space and whose members
+    # were then measured non-destructively holds no state but still carries the level it cached while combined
+    # (CompositeEnvelope.combine does not reset Envelope._expansion_level).  Contracts must hold from such pre-states too.
+    stale = spec.get("stale_level_cache")
+    if stale:
+        for e in w.envs:
+            if e.state is None:
+                e._expansion_level = L.ExpansionLevel.Vector if stale == "V" else L.ExpansionLevel.Matrix
     return w, errs
 
 
@@ -204,6 +212,13 @@ def make_state(cls: str, dims: List[int], lvl: str, rng, label=None):
                 t[tuple(sl)] = 0
         v = t.reshape(-1)
         v = v / np.linalg.norm(v)
+    elif cls == "nearbasis":
+        # within 1e-6 of a basis vector in its leading amplitude, but with another amplitude of 1e-3: NOT a basis state
+        v = np.zeros(D, dtype=complex)
+        k = int(np.ravel_multi_index([1 if d > 2 else 0 for d in dims], dims))
+        eps = 1e-3
+        v[k] = np.sqrt(1 - eps ** 2)
+        v[(k + 1) % D] = eps * np.exp(0.7j)
     elif cls == "ghz":
         # sum_k c_k |k mod d_1, ..., k mod d_r>: every reduced state is DIAGONAL (no coherences between levels), complex c_k.
         # Stresses code that looks at one column / the off-diagonals of a reduced density matrix.
